@@ -73,6 +73,8 @@ step touches a pre-existing element; distinct = hash of (pre-population, step pr
             "probe.new_nodes_after_existing",
             "probe.lazy_step_on_nonempty_graph",
             "probe.step_with_debug_attributes",
+            "probe.debug_step_checked_against_model",
+            "probe.debug_step_program_uses_a_debug_attribute_name",
         ],
         fault_kinds: vec!["abort_history_at_k", "exec_error", "hash_keys"],
     }
@@ -425,13 +427,89 @@ struct Touches {
 /// matches are processed, then evaluates every deferred `edge`, then every deferred `attr` —
 /// so an attribute may precede the `edge` statement that creates its edge.
 fn apply_touch(m: &mut Model, ops: &[Op], stamp: u32, caps: &[CVal], lazy: bool, t: &mut Touches) -> Result<(), String> {
+    apply_touch_dbg(m, ops, stamp, caps, lazy, false, t)
+}
+
+/// `debug`: the step runs with debug attributes; of those the model knows the variable-name
+/// attribute of a node created by `node nn<i>` (DBG_VAR = "nn<i>"); location and match-node
+/// attributes are not predicted (see `debug_superset`)
+fn apply_touch_dbg(m: &mut Model, ops: &[Op], stamp: u32, caps: &[CVal], lazy: bool, debug: bool, t: &mut Touches) -> Result<(), String> {
+    let ph = |p: u8| if debug { p | DEBUG_BIT } else { p };
     if !lazy {
-        return apply_phase(m, ops, stamp, caps, 0, &mut Vec::new(), t);
+        return apply_phase(m, ops, stamp, caps, ph(0), &mut Vec::new(), t);
     }
     let mut locals: Vec<BTreeMap<usize, u32>> = Vec::new();
-    apply_phase(m, ops, stamp, caps, 1, &mut locals, t)?;
-    apply_phase(m, ops, stamp, caps, 2, &mut locals, t)?;
-    apply_phase(m, ops, stamp, caps, 3, &mut locals, t)
+    apply_phase(m, ops, stamp, caps, ph(1), &mut locals, t)?;
+    apply_phase(m, ops, stamp, caps, ph(2), &mut locals, t)?;
+    apply_phase(m, ops, stamp, caps, ph(3), &mut locals, t)
+}
+
+const DEBUG_BIT: u8 = 0x80;
+pub const DBG_LOC: &str = "dbg_loc";
+pub const DBG_VAR: &str = "dbg_var";
+pub const DBG_MATCH: &str = "dbg_match";
+
+/// Comparison for a step run with debug attributes: the observed graph must be the predicted
+/// one plus, possibly, attributes named DBG_LOC / DBG_MATCH (whose values are not predicted).
+fn debug_superset(got: &CGraph, want: &CGraph) -> Option<String> {
+    if got.nodes.len() != want.nodes.len() {
+        return Some(format!("{} nodes, predicted {}", got.nodes.len(), want.nodes.len()));
+    }
+    let cmp = |what: String, g: &CAttrs, w: &CAttrs| -> Option<String> {
+        for (k, v) in w {
+            match g.get(k) {
+                Some(x) if x == v => {}
+                Some(x) => return Some(format!("{}: attribute {} is {:?}, predicted {:?}", what, k, x, v)),
+                None => return Some(format!("{}: attribute {} = {:?} is missing", what, k, v)),
+            }
+        }
+        for (k, v) in g {
+            if !w.contains_key(k) && k != DBG_LOC && k != DBG_MATCH {
+                return Some(format!("{}: unpredicted attribute {} = {:?}", what, k, v));
+            }
+        }
+        None
+    };
+    for (i, (g, w)) in got.nodes.iter().zip(want.nodes.iter()).enumerate() {
+        if let Some(d) = cmp(format!("node {}", i), &g.attrs, &w.attrs) {
+            return Some(d);
+        }
+        let gs: Vec<u32> = g.edges.iter().map(|(k, _)| *k).collect();
+        let ws: Vec<u32> = w.edges.iter().map(|(k, _)| *k).collect();
+        if gs != ws {
+            return Some(format!("node {} has edges to {:?}, predicted {:?}", i, gs, ws));
+        }
+        for ((s, ga), (_, wa)) in g.edges.iter().zip(w.edges.iter()) {
+            if let Some(d) = cmp(format!("edge {} -> {}", i, s), ga, wa) {
+                return Some(d);
+            }
+        }
+    }
+    None
+}
+
+/// With debug attributes every `edge` statement also assigns its own location to the edge, so
+/// in strict mode two different statements creating one edge, or a statement re-creating an edge
+/// that already carries a location, may legitimately conflict. (Lazy mode keeps an existing edge
+/// as it is.)
+fn debug_edge_conflict_possible(ops: &[Op], before: &CGraph) -> bool {
+    let mut seen: Vec<(&NodeX, &NodeX)> = Vec::new();
+    for op in ops {
+        if let Op::Edge(a, b) = op {
+            if seen.contains(&(a, b)) {
+                return true;
+            }
+            seen.push((a, b));
+            if let (NodeX::Old(x), NodeX::Old(y)) = (a, b) {
+                if let Some(n) = before.nodes.get(*x as usize) {
+                    if n.edges.iter().any(|(s, at)| s == y && at.contains_key(DBG_LOC)) {
+                        return true;
+                    }
+                }
+            }
+        }
+    }
+    false
 }
 
 /// In generation-time scratch models the capture is a placeholder; it is assumed to match a
@@ -454,6 +532,8 @@ fn resolve_lit(l: &Lit, cap: &CVal) -> CVal {
 
 /// phase 0: everything in order; 1: nodes only (records locals); 2: edges only; 3: attributes only
 fn apply_phase(m: &mut Model, ops: &[Op], stamp: u32, caps: &[CVal], phase: u8, saved: &mut Vec<BTreeMap<usize, u32>>, t: &mut Touches) -> Result<(), String> {
+    let debug = phase & DEBUG_BIT != 0;
+    let phase = phase & !DEBUG_BIT;
     let matches = caps.len();
     let old_count = m.nodes.len() as u32;
     if phase >= 2 && saved.len() != matches {
@@ -499,6 +579,9 @@ fn apply_phase(m: &mut Model, ops: &[Op], stamp: u32, caps: &[CVal], phase: u8, 
                 Op::NewNode(i) => {
                     let mut n = MNode::default();
                     n.attrs.insert("gen".into(), CVal::Int(stamp));
+                    if debug {
+                        n.attrs.insert(DBG_VAR.into(), CVal::Str(format!("nn{}", i)));
+                    }
                     m.nodes.push(n);
                     locals.insert(*i, m.nodes.len() as u32 - 1);
                 }
@@ -903,6 +986,9 @@ pub struct Stats {
     pub polls: u64,
     pub exact_checks: u64,
     pub debug_steps: u64,
+    pub debug_exact_checks: u64,
+    pub debug_name_clash: u64,
+    pub debug_edge_conflict_excused: u64,
 }
 
 fn pass_count(source: &str) -> usize {
@@ -1151,13 +1237,19 @@ fn run_history_here(h: &History) -> (Stats, Option<Found>) {
         }
         // exact prediction for uncancelled touch steps
         if let Program::Touch { per_pass, ops, stamp, .. } = &step.program {
-            if !cancelled && !step.debug {
+            if !cancelled {
                 let mut model = Model::from_cgraph(&before);
                 let mut t = Touches::default();
                 let matches = if *per_pass { passes[step.tree] } else { 1 };
                 let caps: Vec<CVal> = if *per_pass { pass_nodes[step.tree].clone() } else { vec![roots[step.tree].clone()] };
                 let _ = matches;
-                let predicted = apply_touch(&mut model, ops, *stamp, &caps, step.lazy, &mut t);
+                let predicted = apply_touch_dbg(&mut model, ops, *stamp, &caps, step.lazy, step.debug, &mut t);
+                if step.debug {
+                    st.debug_exact_checks += 1;
+                    if ops.iter().any(|o| matches!(o, Op::AttrNode(_, at) | Op::AttrEdge(_, _, at) if at.iter().any(|(k, _)| k.starts_with("dbg_")))) {
+                        st.debug_name_clash += 1;
+                    }
+                }
                 st.edge_recreated += t.edge_recreated;
                 st.equal_reassigned += t.equal_reassigned;
                 st.conflicting += t.conflicting;
@@ -1169,6 +1261,18 @@ fn run_history_here(h: &History) -> (Stats, Option<Found>) {
                 st.touched_old |= t.touched_old;
                 st.exact_checks += 1;
                 match (&predicted, &outcome) {
+                    (Ok(()), Outcome::Graph(g)) if step.debug => {
+                        if let Some(d) = debug_superset(g, &model.to_cgraph()) {
+                            return (st, Some(Found {
+                                class: "result-differs-from-model",
+                                step: si,
+                                detail: format!("step {} ({}, with debug attributes) succeeded but the graph is not the predicted one plus location/match-node attributes: {}", step_no, if step.lazy { "lazy" } else { "strict" }, d),
+                            }));
+                        }
+                    }
+                    (Ok(()), Outcome::Error(_)) if step.debug && !step.lazy && debug_edge_conflict_possible(ops, &before) => {
+                        st.debug_edge_conflict_excused += 1;
+                    }
                     (Ok(()), Outcome::Graph(g)) => {
                         let want = model.to_cgraph();
                         if *g != want {
@@ -1300,7 +1404,23 @@ pub fn make_history(ctx: &ShardCtx, i: u64) -> History {
         let debug = r.chance(1, 6);
         if r.chance(3, 4) {
             let conflict = r.chance(1, 4);
-            let (per_pass, ops) = gen_touch(&mut r, &m, stamp, conflict);
+            let (per_pass, mut ops) = gen_touch(&mut r, &m, stamp, conflict);
+            if debug && r.chance(2, 3) {
+                // the program itself uses a debug attribute name: the variable-name attribute of
+                // a node it creates (equal value: accepted; another value: conflict), or a fresh
+                // variable-name / match-node attribute on an edge it creates (edges get neither)
+                let news: Vec<usize> = ops.iter().filter_map(|o| if let Op::NewNode(i) = o { Some(*i) } else { None }).collect();
+                let edges: Vec<(NodeX, NodeX)> = ops.iter().filter_map(|o| if let Op::Edge(a, b) = o { Some((a.clone(), b.clone())) } else { None }).collect();
+                if !news.is_empty() && (edges.is_empty() || r.chance(2, 3)) {
+                    let i = *r.pick(&news);
+                    let v = if r.chance(3, 4) { format!("nn{}", i) } else { "other".to_string() };
+                    ops.push(Op::AttrNode(NodeX::New(i), vec![(DBG_VAR.into(), Lit::Str(v))]));
+                } else if !edges.is_empty() {
+                    let (a, b) = r.pick(&edges).clone();
+                    let k = if r.chance(1, 2) { DBG_VAR } else { DBG_MATCH };
+                    ops.push(Op::AttrEdge(a, b, vec![(k.into(), Lit::Str("mine".into()))]));
+                }
+            }
             // advance the optimistic model when the step is expected to succeed uncancelled
             if !conflict && cancel_at.is_none() && !debug {
                 let matches = if per_pass { pass_count(&sources[tree]) } else { 1 };
@@ -1603,6 +1723,9 @@ pub fn run_shard(ctx: &ShardCtx, rep: &mut Report) {
         rep.add("probe.lazy_step_on_nonempty_graph", st.lazy_nonempty);
         rep.add("exact_model_checks", st.exact_checks);
         rep.add("probe.step_with_debug_attributes", st.debug_steps);
+        rep.add("probe.debug_step_checked_against_model", st.debug_exact_checks);
+        rep.add("probe.debug_step_program_uses_a_debug_attribute_name", st.debug_name_clash);
+        rep.add("probe.debug_step_edge_location_conflict_excused", st.debug_edge_conflict_excused);
         rep.run_hashes.push((i, st.transcript));
         if st.touched_old {
             rep.distinct("histories", rng::hash_str(&history_json(&h).to_string()));
